@@ -1,6 +1,7 @@
 """C18 — ping / speedtest / reverse-proxy channels on whole sessions (real codecs and handlers over in-memory transports)."""
 from run_check import Case
 from vlib import line, untok
+from props.wirecases import gen_wire_cases, judge_wire
 
 TRUSTED_BASE = [
     "Coq 8.16.1 kernel (coqc; coqchk in the thorough tier)",
@@ -111,6 +112,8 @@ def gen_cases(rng, ctx):
             add([3, 0, private, 1, 0, auth, 0], 6, "/x", hs=[("upgrade", "test")], expect="rp", name="rp:host-private%d" % private)
             add([3, 0, private, 1, 0, auth, 0], 7, "/rp/anything", hs=[("content-length", "0")], expect="rp", name="rp:host-post-private%d" % private)
             add([0, 0, private, 1, 0, auth, 0], 6, "/rp/x", hs=[("upgrade", "test")], expect="rp", name="rp:mask-on-tunnel-host-private%d" % private)
+    # the request head the reverse proxy writes to the origin (encode_request) through the door
+    cases += gen_wire_cases(rng, 60 if thorough else 20, responses=False)
     return cases
 
 
@@ -123,6 +126,8 @@ def known_finding(case, kind, msg, known):
 
 
 def judge(case, impl, model, spec, ctx):
+    if case.meta and case.meta.get("wire"):
+        return judge_wire(case, impl, model, spec)
     if impl == "999":
         return [("violation", "a service channel handler panicked on %s" % case.kind)]
     t = impl.split()
